@@ -4,6 +4,9 @@
 use crate::spec::*;
 use crate::values::*;
 
+/// pass-through converters of the prelude (see `PRELUDE`)
+const PLAIN_WITH: [&str; 12] = ["len", "item", "items", "errors", "val", "value", "name", "inner", "result", "meta", "field", "other"];
+
 /// every fifth field's helper functions take a (needless) generic argument, written the way a type
 /// would carry it in the quoted spelling of the path
 fn generic_helper(k: usize) -> bool {
@@ -45,6 +48,11 @@ fn field_attr(recvs: &[Recv], scope: &str, f: &Field, k: usize) -> String {
         opts.push("flatten".into());
     }
     match f.with {
+        // (a converter that does what the field's type does by itself, named like something generated
+        // code is tempted to call its own locals: every sixth plain field)
+        // (not on the only field of a newtype: with a converter of its own such a receiver no longer
+        // hands a *list* on to the field, which a flatten member needs)
+        With::None if k % 6 == 4 && !f.flatten && !f.skip && !f.foreign && f.rust != "nt" && !f.rust.starts_with("nt_") => opts.push(format!("with = {}", PLAIN_WITH[(k / 6 + hn.len()) % PLAIN_WITH.len()])),
         With::None => {}
         With::Path => opts.push(format!("with = with_{}_{}", scope, hn)),
         With::Closure => {
@@ -495,6 +503,18 @@ pub const PRELUDE: &str = r#"// @generated by the corpus emitter — a shard of 
 #![allow(dead_code, unused_variables, unused_mut, unused_imports, non_snake_case, clippy::all)]
 
 fn lit<T: ::core::default::Default>() -> T { ::core::default::Default::default() }
+fn len<T: ::darling::FromMeta>(m: &syn::Meta) -> ::darling::Result<T> { <T as ::darling::FromMeta>::from_meta(m) }
+fn item<T: ::darling::FromMeta>(m: &syn::Meta) -> ::darling::Result<T> { <T as ::darling::FromMeta>::from_meta(m) }
+fn items<T: ::darling::FromMeta>(m: &syn::Meta) -> ::darling::Result<T> { <T as ::darling::FromMeta>::from_meta(m) }
+fn errors<T: ::darling::FromMeta>(m: &syn::Meta) -> ::darling::Result<T> { <T as ::darling::FromMeta>::from_meta(m) }
+fn val<T: ::darling::FromMeta>(m: &syn::Meta) -> ::darling::Result<T> { <T as ::darling::FromMeta>::from_meta(m) }
+fn value<T: ::darling::FromMeta>(m: &syn::Meta) -> ::darling::Result<T> { <T as ::darling::FromMeta>::from_meta(m) }
+fn name<T: ::darling::FromMeta>(m: &syn::Meta) -> ::darling::Result<T> { <T as ::darling::FromMeta>::from_meta(m) }
+fn inner<T: ::darling::FromMeta>(m: &syn::Meta) -> ::darling::Result<T> { <T as ::darling::FromMeta>::from_meta(m) }
+fn result<T: ::darling::FromMeta>(m: &syn::Meta) -> ::darling::Result<T> { <T as ::darling::FromMeta>::from_meta(m) }
+fn meta<T: ::darling::FromMeta>(m: &syn::Meta) -> ::darling::Result<T> { <T as ::darling::FromMeta>::from_meta(m) }
+fn field<T: ::darling::FromMeta>(m: &syn::Meta) -> ::darling::Result<T> { <T as ::darling::FromMeta>::from_meta(m) }
+fn other<T: ::darling::FromMeta>(m: &syn::Meta) -> ::darling::Result<T> { <T as ::darling::FromMeta>::from_meta(m) }
 #[derive(Debug, Default)] pub struct Foreign<T>(pub T);
 impl<T: ::vf_support::Dump> ::vf_support::Dump for Foreign<T> { fn dump(&self) -> ::vf_support::Value { ::vf_support::Dump::dump(&self.0) } }
 fn attrs_count(attrs: Vec<syn::Attribute>) -> ::darling::Result<usize> { Ok(attrs.len()) }
